@@ -112,6 +112,7 @@ Mult2   == {2}
 Mult3   == {3}
 NoRings == {}
 Mult13  == {1, 3}
+Mult10  == {10, 12}
 Mult123 == {1, 2, 3}
 Rings1  == {RingT(1, "d")}
 Nodes1  == {NodeT("A", <<>>)}
